@@ -397,4 +397,83 @@ theorem implicit_update_inverse {n : ℕ} (M D : Matrix (Fin n) (Fin n) ℝ) (h 
 example : IsUnit ((1 : Matrix (Fin 2) (Fin 2) ℝ) - (1/2 : ℝ) • (0 : Matrix (Fin 2) (Fin 2) ℝ)).det := by
   simp
 
+/-! ### which force-velocity derivatives enter `D` (term completeness of the implicit solve) -/
+
+section DTerms
+open MjProof.Integrate.DTerms
+
+/-- `implicit`: for EVERY combination of the spring / damper / actuation (/ eulerdamp) disable flags, the matrix `D` of
+the `(M − h·D)` solve — `qDeriv` as assembled by the *generated* statement lists of `mjd_smooth_vel`,
+`mjd_actuator_vel`, `mjd_passive_vel` with the generated `flg_bias` of `mj_implicitSkip` — contains the velocity
+derivative of a smooth force term exactly when the forward pass (generated `mj_passive` / `mj_fluid`, hand-modelled
+value gating of `mj_springdamper` / `mj_fwdActuation`) applies that term: no applied velocity-dependent force is
+integrated explicitly, no derivative of a force that is not applied is used. -/
+theorem implicit_D_complete (f : DFlags) (t : FTerm) : inD .implicit f t = some (applied f t) := by
+  cases f with
+  | mk s d a e => cases t <;> cases s <;> cases d <;> cases a <;> cases e <;> decide
+
+/-- `implicitfast`: the same, except for the derivative of the Coriolis / centripetal forces of kinematic chains
+(documented exclusion); the gyroscopic derivative of standalone free bodies is kept (local 6x6 solve). -/
+theorem implicitfast_D_complete (f : DFlags) (t : FTerm) :
+    inD .implicitfast f t = some (applied f t && t != .biasChain) := by
+  cases f with
+  | mk s d a e => cases t <;> cases s <;> cases d <;> cases a <;> cases e <;> decide
+
+/-- `Euler`: `D` holds the joint-damping derivative only, and only while that force is applied and
+`mjDSBL_EULERDAMP` is clear; `RK4`: no implicit solve. -/
+theorem euler_rk4_D_def (f : DFlags) (t : FTerm) :
+    inD .euler f t = some (t == .dofDamper && applied f t && !f.eulerdamp) ∧ inD .rk4 f t = some false := by
+  cases f with
+  | mk s d a e => cases t <;> cases s <;> cases d <;> cases a <;> cases e <;> decide
+
+/-- no integrator differentiates a force term that the forward pass does not apply -/
+theorem D_only_of_applied_forces (i : Integ) (f : DFlags) (t : FTerm) (h : inD i f t = some true) :
+    applied f t = true := by
+  cases f with
+  | mk s d a e =>
+    cases i <;> cases t <;> cases s <;> cases d <;> cases a <;> cases e <;> first | rfl | exact absurd h (by decide)
+
+-- non-vacuity: dampers disabled, springs enabled — fluid forces are applied and their derivative is in D
+example : applied ⟨false, true, false, false⟩ .fluidBox = true ∧
+    inD .implicitfast ⟨false, true, false, false⟩ .fluidBox = some true ∧
+    inD .implicit ⟨false, true, false, false⟩ .dofDamper = some false := by decide
+
+end DTerms
+
+open Matrix in
+/-- WHY the completeness of `D` matters (all sizes, all matrices): let the smooth force be affine in the velocity,
+`f(w) = f0 + D w`, let `a` be the forward acceleration `M a = f(v)`, and let the engine solve with SOME matrix `D'`,
+`(M − h D') x = M a`.  Then the new velocity `v' = v + h x` misses the backward-Euler equation
+`M (v' − v) = h f(v')` by exactly `h² (D' − D) x`. -/
+theorem implicit_update_backward_euler_residual {n : ℕ} (M D D' : Matrix (Fin n) (Fin n) ℝ) (h : ℝ)
+    (v a x f0 : Fin n → ℝ) (hforce : M *ᵥ a = f0 + D *ᵥ v) (cert : (M - h • D') *ᵥ x = M *ᵥ a) :
+    M *ᵥ ((v + h • x) - v) - h • (f0 + D *ᵥ (v + h • x)) = (h * h) • ((D' - D) *ᵥ x) := by
+  have hMx : M *ᵥ x = M *ᵥ a + h • (D' *ᵥ x) := by
+    have := cert
+    rw [Matrix.sub_mulVec, Matrix.smul_mulVec] at this
+    rw [← this]; abel
+  rw [add_sub_cancel_left, Matrix.mulVec_smul, hMx, hforce, Matrix.mulVec_add, Matrix.mulVec_smul, Matrix.sub_mulVec]
+  ext i
+  simp only [Pi.add_apply, Pi.sub_apply, Pi.smul_apply, smul_eq_mul]
+  ring
+
+open Matrix in
+/-- …so with the force-velocity derivative itself (`D' = D`) the implicit update solves the backward-Euler equation
+of an affine force law exactly: `M (v' − v) = h f(v')` (one Newton step is exact). -/
+theorem implicit_update_solves_backward_euler {n : ℕ} (M D : Matrix (Fin n) (Fin n) ℝ) (h : ℝ)
+    (v a x f0 : Fin n → ℝ) (hforce : M *ᵥ a = f0 + D *ᵥ v) (cert : (M - h • D) *ᵥ x = M *ᵥ a) :
+    M *ᵥ ((v + h • x) - v) = h • (f0 + D *ᵥ (v + h • x)) := by
+  have := implicit_update_backward_euler_residual M D D h v a x f0 hforce cert
+  rw [sub_self, Matrix.zero_mulVec, smul_zero] at this
+  exact sub_eq_zero.mp this
+
+-- non-vacuity (1 dof, M = 1, linear drag D = -1, h = 1, v = 1, no constant force): a = -1, x = -1/2, v' = 1/2
+example : ((1 : Matrix (Fin 1) (Fin 1) ℝ) - (1 : ℝ) • (-1 : Matrix (Fin 1) (Fin 1) ℝ)).mulVec (fun _ => (-1/2 : ℝ)) =
+    (1 : Matrix (Fin 1) (Fin 1) ℝ).mulVec (fun _ => (-1 : ℝ)) := by
+  ext i
+  have hi : i = 0 := Subsingleton.elim _ _
+  subst hi
+  simp [Matrix.mulVec, dotProduct]
+  norm_num
+
 end MjProof.C05
